@@ -7,7 +7,7 @@ import os
 import re
 
 HPP = "src/soplex/spxlpbase_real.hpp"
-CAP = 9000            # > SOPLEX_LPF_MAX_LINE_LEN (8192); the unit refuses to run otherwise (contract.c)
+CAP = 9000            # > SOPLEX_LPF_MAX_LINE_LEN (8192)
 
 
 def sl(name, sig, must=None):
